@@ -95,6 +95,34 @@ def run(index, rep, tier):
                     rep.check(bad is None, "R16.8", m.qualname, "grows %s without re-running %s" % (w.attr, c), fn_where(m, w.stmt), "%s grows %s and re-runs %s" % (m.name, w.attr, c),
                               "%s adds a state to `%s` and, with auto-compilation on, can return without running %s, which is what defines the member states derived from that list (the missing-data state = all fundamental states): the alphabet's `?` keeps the old state set, so the Fitch pass treats a missing cell as excluding the new state and counts a change that the minimum does not need" % (m.qualname, w.attr, c))
         rep.floor("R16.8", "growth sites of lists that member states are derived from", 1, ngrow)
+        # the gap / missing-data designation is a source too: the compile steps derive is_gap_state,
+        # gap_state_as_no_data_state and the missing-data state's members from self.gap_state / self.no_data_state
+        srcs = {}
+        for m in SA.methods.values():
+            if m.name.startswith("compile_"):
+                for x in ast.walk(m.node):
+                    if isinstance(x, ast.Attribute) and isinstance(x.ctx, ast.Load) and norm(x.value) == "self" and x.attr in ("gap_state", "no_data_state"):
+                        srcs.setdefault(x.attr, set()).add(m.name)
+        nset = 0
+        for m in SA.methods.values():
+            if m.name == "__init__" or m.name.startswith("compile_"):
+                continue
+            g = cfg_of(m)
+            for w in writes_in(m.node):
+                if not (w.kind == "store" and w.base is not None and norm(w.base) == "self" and w.attr in srcs):
+                    continue
+                nset += 1
+                need = sorted(srcs[w.attr])
+                allc = set(need) | {"compile_lookup_mappings"}
+                bad = None
+                for nd in g.nodes_of_stmt(w.stmt):
+                    ok, wit = g.must_pass(nd, lambda n, allc=allc: any(norm(k.func) in ["self." + r for r in allc] for k in node_calls(n)),
+                                          edge_ok=lambda a_, lab, b_: not (a_.kind == "test" and norm(a_.ast) == "self.autocompile_lookup_tables" and lab == "f"))
+                    if not ok:
+                        bad = wit
+                rep.check(bad is None, "R16.8", m.qualname, "sets %s without re-running %s" % (w.attr, need), fn_where(m, w.stmt), "%s sets %s and recompiles" % (m.name, w.attr),
+                          "%s assigns `self.%s` and returns without re-running %s, which is where the per-state flags (is_gap_state, gap_state_as_no_data_state) and the missing-data state's members are derived from it: designating the gap symbol after construction has no effect until some later, unrelated compile - parsimony_score(gaps_as_missing=True) keeps counting gaps as a state" % (m.qualname, w.attr, need))
+        rep.floor("R16.8", "setters of the gap / missing-data designation", 2, nset)
 
     rep.rule("R16.9", "every built-in alphabet tells the base class which symbol is the gap and which means 'no data': each direct StateAlphabet subclass passes gap_symbol and no_data_symbol to StateAlphabet.__init__ like its siblings, and neither symbol is hidden among the fundamental states (the scorer's gaps_as_missing acts only on the state flagged as gap)")
     with rep.section("R16.9"):
